@@ -32,6 +32,9 @@ def run_one(scen):
     try:
         run = impl_trace.Run(scen, step_timeout=scen.get("step_timeout", 6))
         n = drive(run, scen)
+        run.twin = None
+        if scen.get("probes", {}).get("shift") and run.env is not None and scen["policy"]["kind"] != "multi":
+            run.twin = shift_twin(run, scen)
         res.update(cmds=run.cmds, out=run.out, steps=n, unrep=run.unrep,
                    compile_error=(None if run.compile_error is None else impl_trace.err_name(run.compile_error)))
         res["findings"], res["stats"] = monitors.check_all(run, scen)
@@ -71,6 +74,29 @@ def drive(run, scen):
             run.probe_reset()
     run.end()
     return n
+
+
+def shift_twin(run, scen):
+    """C12: the same scenario started `delta` later, driven by the same agent actions; only looked at
+    by the implementation-side monitor (nothing of it is sent to the model)"""
+    import impl_trace
+    import yaml
+    doc = yaml.safe_load(scen["dsl"])
+    init = dict(doc.get("init_state") or {})
+    delta = scen["probes"]["shift"]
+    init["start_time"] = int(init.get("start_time", 0)) + delta
+    doc["init_state"] = init
+    scen2 = dict(scen, dsl=yaml.safe_dump(doc, sort_keys=False), id=scen["id"] + "-shift")
+    tw = impl_trace.Run(scen2, step_timeout=scen.get("step_timeout", 6))
+    tw.delta = delta
+    alive = tw.start()
+    for rec in run.records:
+        if rec.kind != "act":
+            continue
+        if not alive or tw.env is None:
+            break
+        alive = tw.act(rec.action)
+    return tw
 
 
 def run_scenarios(scens, nproc=None):
